@@ -77,6 +77,59 @@ class Visitor(ast.NodeVisitor):
         self.aliases = {}
         self.mdef = mutable_defaults
         self.guards = []
+        self.strenv = {}        # loop variable -> the literal strings it ranges over (for getattr/setattr with computed names)
+        self.const_dicts = {}   # local name -> True when bound to a dict literal with constant values (fresh on every call)
+        self.const_names = set()  # loop variables ranging over the values of such a dict
+
+    def possible(self, e):
+        """the set of strings an expression can evaluate to (literal, loop variable over literals, concatenation, f-string)"""
+        if isinstance(e, ast.Constant) and isinstance(e.value, str):
+            return {e.value}
+        if isinstance(e, ast.Constant) and isinstance(e.value, int):
+            return {str(e.value)}
+        if isinstance(e, ast.Name) and e.id in self.strenv:
+            return set(self.strenv[e.id])
+        if isinstance(e, ast.BinOp) and isinstance(e.op, ast.Add):
+            a, b = self.possible(e.left), self.possible(e.right)
+            return None if a is None or b is None else {x + y for x in a for y in b}
+        if isinstance(e, ast.JoinedStr):
+            acc = {''}
+            for v in e.values:
+                part = self.possible(v.value) if isinstance(v, ast.FormattedValue) and v.format_spec is None and v.conversion == -1 else self.possible(v)
+                if part is None:
+                    return None
+                acc = {x + y for x in acc for y in part}
+            return acc
+        return None
+
+    def visit_For(self, node):
+        self.visit(node.iter)
+        bound, cbound = [], []
+        it = node.iter
+        if isinstance(it, (ast.Tuple, ast.List)):
+            elts = it.elts
+            if isinstance(node.target, ast.Name) and all(self.possible(x) is not None for x in elts):
+                self.strenv[node.target.id] = set().union(*[self.possible(x) for x in elts]) if elts else set()
+                bound.append(node.target.id)
+            elif isinstance(node.target, ast.Tuple) and all(isinstance(x, (ast.Tuple, ast.List)) and len(x.elts) == len(node.target.elts) for x in elts):
+                for k, t in enumerate(node.target.elts):
+                    if isinstance(t, ast.Name) and all(self.possible(x.elts[k]) is not None for x in elts):
+                        self.strenv[t.id] = set().union(*[self.possible(x.elts[k]) for x in elts])
+                        bound.append(t.id)
+        if isinstance(it, ast.Call) and isinstance(it.func, ast.Attribute) and it.func.attr in ('items', 'values') and \
+                isinstance(it.func.value, ast.Name) and self.const_dicts.get(it.func.value.id):
+            t = node.target
+            vname = t.elts[1] if (it.func.attr == 'items' and isinstance(t, ast.Tuple) and len(t.elts) == 2) else (t if it.func.attr == 'values' else None)
+            if isinstance(vname, ast.Name):
+                self.const_names.add(vname.id); cbound.append(vname.id)
+        for st in node.body:
+            self.visit(st)
+        for b in bound:
+            self.strenv.pop(b, None)
+        for b in cbound:
+            self.const_names.discard(b)
+        for st in node.orelse:
+            self.visit(st)
 
     def mark_mut(self, attr, node, how):
         self.info.mutates.add(attr)
@@ -91,7 +144,8 @@ class Visitor(ast.NodeVisitor):
         if isinstance(t, ast.Subscript):
             if isinstance(t.value, ast.Name) and t.value.id in self.mdef:
                 guarded = any(g == t.value.id for g in self.guards)
-                const = isinstance(getattr(node, 'value', None), (ast.Constant, ast.List, ast.UnaryOp))
+                v_ = getattr(node, 'value', None)
+                const = isinstance(v_, (ast.Constant, ast.List, ast.UnaryOp)) or (isinstance(v_, ast.Name) and v_.id in self.const_names)
                 self.info.default_mut.append((t.value.id, bool(guarded and const), node.lineno))
                 return
             r = view_root(t.value, self.objs, self.aliases, self.infos)
@@ -105,6 +159,10 @@ class Visitor(ast.NodeVisitor):
         self.visit(node.value)
         for t in node.targets:
             if isinstance(t, ast.Name):
+                def _c(x):
+                    return isinstance(x, ast.Constant) or (isinstance(x, ast.UnaryOp) and isinstance(x.operand, ast.Constant)) or \
+                        (isinstance(x, (ast.List, ast.Tuple)) and all(_c(y) for y in x.elts))
+                self.const_dicts[t.id] = isinstance(node.value, ast.Dict) and all(_c(v) for v in node.value.values)
                 r = view_root(node.value, self.objs, self.aliases, self.infos)
                 if r is not None:
                     self.aliases[t.id] = r
@@ -160,7 +218,18 @@ class Visitor(ast.NodeVisitor):
                 pass
         elif isinstance(f, ast.Name):
             if f.id == 'setattr' and node.args and isinstance(node.args[0], ast.Name) and node.args[0].id in self.objs:
-                self.info.writes.add('*')
+                names = self.possible(node.args[1]) if len(node.args) > 1 else None
+                if names is None:
+                    self.info.writes.add('*')
+                else:
+                    for a_ in names:
+                        self.info.writes.add(a_)
+                        self.info.first_write.setdefault(a_, node.lineno)
+            if f.id == 'getattr' and node.args and isinstance(node.args[0], ast.Name) and node.args[0].id in self.objs:
+                names = self.possible(node.args[1]) if len(node.args) > 1 else None
+                for a_ in (names if names is not None else []):      # an uncomputable name is a read of something: harmless for C17
+                    self.info.reads.add(a_)
+                    self.info.first_read.setdefault(a_, node.lineno)
             # helper function receiving the object
             if any(isinstance(a, ast.Name) and a.id in self.objs for a in node.args) or \
                any(isinstance(k.value, ast.Name) and k.value.id in self.objs for k in node.keywords):
